@@ -70,6 +70,7 @@ def build_state(rng):
 
     def do(op):
         r, _obs = hist.observe(app, op)
+        warm(app)
         if r.status < 300:
             done.append(op)
             box['dump'] = ops.canon_dump(app.raw_dump())
@@ -197,6 +198,14 @@ FIXED_CASES = [
       _q([_grp(0, [(0, 2), (2, 20), (1000, 1)])], v=11, policy='absent'),
       _q([_grp(0, [(0, 2), (2, 20), (1000, 1)])], v=12, policy='absent'),
       _q([_grp(0, [(1000, 1), (2, 20), (0, 2)])], v=16, policy='absent')]),
+    # the deployment is FLAT while the first answers are given; the first tree then comes into being by giving an existing
+    # root a parent (PUT, 1.14+); the unsuffixed group must be spread over parent and child (seed C03-h: a cached "no trees")
+    ([('rp_create', 39, 1, 1, None), ('inv_set', 39, 1, 0, [_inv(0, 8)]), ('rp_create', 39, 2, 2, None),
+      ('inv_set', 39, 2, 0, [_inv(2, 100)]), ('aggs_set', 39, 1, 1, [1]), ('rp_update', 39, 2, 2, 1)],
+     [_q([_grp(0, [(0, 1), (2, 10)])], policy='absent'),
+      _q([_grp(0, [(0, 1), (2, 10)], member_of=[[1]])], policy='absent'),
+      _q([_grp(0, [(0, 1)]), _grp(1, [(2, 10)])]),
+      _q([_grp(0, [(0, 1), (2, 10)])], v=28, policy='absent')]),
     # corner 4 (found by the proof of C03_exact_sharing): node 1 in aggregates 1 and 2, sharing disk provider 2 in aggregate 2;
     # member_of=!1 on the unsuffixed group asking DISK_GB only: the code drops the sharing provider under anchor 1
     ([('rp_create', 39, 1, 1, None), ('inv_set', 39, 1, 0, [_inv(0, 8)]), ('aggs_set', 39, 1, 1, [1, 2]),
@@ -275,11 +284,21 @@ def sweep_queries(limit=None, seed=0):
     return [q for _a, q in out]
 
 
+def warm(app):
+    """reads issued WHILE a state is being built (answers discarded): whatever a process remembers from answering them
+    (caches of names, of "are there provider trees", ...) must not survive into answers about the later state"""
+    for path in ('/allocation_candidates?resources=VCPU:1', '/allocation_candidates?resources=VCPU:1,DISK_GB:1',
+                 '/resource_providers?resources=VCPU:1', '/resource_providers'):
+        app.request('GET', path, version='1.39', headers={'x-roles': 'admin,service'})
+
+
 def build_fixed(op_list):
     app = impl.App()
     done = []
+    warm(app)
     for op in op_list:
         r, _obs = hist.observe(app, op)
+        warm(app)
         assert r.status < 300, ('fixed candidate state: set-up request failed', op, r.status, r.body[:200])
         done.append(op)
     return app, Built(done, ops.canon_dump(app.raw_dump()), [0, 1, 2])
